@@ -1,2 +1,191 @@
--- driver stub (replaced when the model for C10 is built)
-def main : IO Unit := pure ()
+/-
+  Driver for C10 (and the whole-geometry part of C11): a geometry state machine.
+  One request per line, one reply line.  Names are hex-encoded, rationals are `num/den`.
+
+  building        new <conv> <atmos> | node <name> <x> <y> | col <name> <surface|-> <numlayers> <centre x y|- -> <spec 0|1|-> <node>…
+                  conn <col> <col> | layer <name> <bottom> <centre> <top> | well <name> <x y z>…
+                  setup | identify_neighbours | set_default_surface
+  editing         the operations of mulgrid (see `step`)
+  observing       dump   (the whole state, canonical text)
+  reply           `ok` / `ok <value>` / `exc <PythonExceptionName>` / `bad …`
+  After an exception the state is the one before the operation (the harness ends the history there).
+-/
+import PyTough.Model.GeoOps
+import PyTough.Py.Proto
+open Py Model.Geo Model.Geo.Geo
+
+def parseInt? (s : String) : Option Int :=
+  if s.startsWith "-" then (s.drop 1).toNat?.map fun n => -(n : Int) else s.toNat?.map fun n => (n : Int)
+
+def parseRat? (s : String) : Option Rat :=
+  match s.splitOn "/" with
+  | [n] => (parseInt? n).map fun i => (i : Rat)
+  | [n, d] => do
+    let i ← parseInt? n
+    let k ← d.toNat?
+    if k = 0 then none else some (mkRat i k)
+  | _ => none
+
+def showRat (r : Rat) : String := s!"{r.num}/{r.den}"
+def hexName (n : Name) : String := let h := toHex n; if h = "" then "~" else h
+def unhexName (s : String) : Name := if s = "~" then [] else ofHex s
+
+def ratD (s : String) : Rat := (parseRat? s).getD 0
+
+def dump (g : Geo) : String :=
+  let nm (n : Name) := hexName n
+  let nodeName (i : Nat) := nm (g.node i).name
+  let colName (i : Nat) := nm (g.col i).name
+  let conName (k : Nat) := colName (g.con k).c0 ++ ":" ++ colName (g.con k).c1
+  let sec (tag : String) (items : List String) := tag ++ " " ++ toString items.length ++ (items.foldl (fun a s => a ++ " " ++ s) "")
+  let nodes := g.nodelist.map fun i =>
+    let n := g.node i
+    s!"{nm n.name} {showRat n.pos.1} {showRat n.pos.2} {n.cols.length}" ++ (n.cols.foldl (fun a c => a ++ " " ++ colName c) "")
+  let cols := g.columnlist.map fun i =>
+    let c := g.col i
+    let surf := match c.surface with | some s => showRat s | none => "-"
+    s!"{nm c.name} {c.nodes.length}" ++ (c.nodes.foldl (fun a n => a ++ " " ++ nodeName n) "") ++
+      s!" {showRat c.centre.1} {showRat c.centre.2} {if c.centreSpecified then 1 else 0} {surf} {showRat c.area} {c.numLayers} {c.nbrs.length}" ++
+      (c.nbrs.foldl (fun a n => a ++ " " ++ colName n) "") ++ s!" {c.cons.length}" ++
+      (c.cons.foldl (fun a k => a ++ " " ++ conName k) "")
+  let cons := g.connlist.map fun k =>
+    let c := g.con k
+    let nd := match c.nodes with | some (a, b) => nodeName a ++ " " ++ nodeName b | none => "- -"
+    s!"{colName c.c0} {colName c.c1} {nd}"
+  let lays := g.layerlist.map fun l =>
+    let la := g.lay l
+    s!"{nm la.name} {showRat la.bottom} {showRat la.centre} {showRat la.top}"
+  let wells := g.welllist.map fun w =>
+    let wl := g.well w
+    s!"{nm wl.name} {wl.pos.length}" ++ (wl.pos.foldl (fun a p => a ++ s!" {showRat p.1} {showRat p.2.1} {showRat p.2.2}") "")
+  let dn := g.nodeD.map fun p => nm p.1 ++ " " ++ nodeName p.2
+  let dc := g.columnD.map fun p => nm p.1 ++ " " ++ colName p.2
+  let dl := g.layerD.map fun p => nm p.1 ++ " " ++ nm (g.lay p.2).name
+  let dw := g.wellD.map fun p => nm p.1 ++ " " ++ nm (g.well p.2).name
+  let dk := g.connD.map fun p => nm p.1.1 ++ " " ++ nm p.1.2 ++ " " ++ colName (g.con p.2).c0 ++ " " ++ colName (g.con p.2).c1
+  let fresh : String :=
+    match g.computeBlockNames with
+    | .error e => "exc:" ++ e.toString
+    | .ok b =>
+      match ({ g with blockNames := b }).computeConnNames with
+      | .error e => "exc:" ++ e.toString
+      | .ok c => (if b = g.blockNames then "1" else "0") ++ (if c = g.connNames then "1" else "0")
+  " ".intercalate [sec "N" nodes, sec "C" cols, sec "K" cons, sec "L" lays, sec "W" wells,
+    sec "DN" dn, sec "DC" dc, sec "DL" dl, sec "DW" dw, sec "DK" dk,
+    sec "B" (g.blockNames.map nm), sec "BC" (g.connNames.map fun p => nm p.1 ++ " " ++ nm p.2), "FRESH " ++ fresh]
+
+def colId (g : Geo) (h : String) : Except Exc Nat :=
+  match g.columnD.get? (unhexName h) with
+  | some i => .ok i
+  | none => .error .keyError
+
+def nodeId (g : Geo) (h : String) : Except Exc Nat :=
+  match g.nodeD.get? (unhexName h) with
+  | some i => .ok i
+  | none => .error .keyError
+
+/-- `k` then `k` items -/
+def takeCounted (ws : List String) : Option (List String × List String) :=
+  match ws with
+  | [] => none
+  | k :: r => k.toNat?.bind fun n => if r.length < n then none else some (r.take n, r.drop n)
+
+def parseWellPos : List String → List (Rat × Rat × Rat)
+  | x :: y :: z :: r => (ratD x, ratD y, ratD z) :: parseWellPos r
+  | _ => []
+
+def step (g : Geo) : List String → Except Exc (Geo × String)
+  | ["new", conv, atm] => .ok ({ convention := conv.toNat!, atmosType := atm.toNat! }, "")
+  | ["node", n, x, y] => .ok (g.addNode (unhexName n) (ratD x, ratD y), "")
+  | "col" :: n :: surf :: nl :: cx :: cy :: spec :: nodes => do
+    let ids ← nodes.mapM (nodeId g)
+    let centre := if cx = "-" then none else some (ratD cx, ratD cy)
+    let existed := g.columnD.contains (unhexName n)
+    let g ← g.addColumn (unhexName n) ids centre (parseRat? surf) ((parseInt? nl).getD 0)
+    -- loading an existing geometry: the centre is given, `centre_specified` separately
+    let g := if existed || spec = "-" then g else
+      match g.columnlist.getLast? with
+      | some l => g.updCol l fun c => { c with centreSpecified := spec = "1" }
+      | none => g
+    pure (g, "")
+  | ["conn", a, b] => do
+    let g := g.addConnection (← colId g a) (← colId g b)
+    pure (g, "")
+  | ["layer", n, b, c, t] => .ok (g.addLayer { name := unhexName n, bottom := ratD b, centre := ratD c, top := ratD t }, "")
+  | "well" :: n :: pos => .ok (g.addWell { name := unhexName n, pos := parseWellPos pos }, "")
+  | ["setup"] => do pure (← g.setupNames, "")
+  | ["identify_neighbours"] => .ok (g.identifyNeighbours, "")
+  | ["set_default_surface"] => .ok (g.setDefaultSurface, "")
+  | ["identify_layer_tops"] => .ok (g.identifyLayerTops, "")
+  | ["set_surface", c, z] => do pure (← g.setSurface (← colId g c) (ratD z), "")
+  | ["delete_node", n] => do pure (← g.deleteNode (unhexName n), "")
+  | ["delete_column", n] => do pure (← g.deleteColumn (unhexName n), "")
+  | ["delete_connection", a, b] => do pure (← g.deleteConnection (unhexName a, unhexName b), "")
+  | ["delete_layer", n] => do pure (← g.deleteLayer (unhexName n), "")
+  | ["delete_well", n] => do pure (← g.deleteWell (unhexName n), "")
+  | ["split_column", c, n] => do
+    let (g, r) ← g.splitColumn (unhexName c) (unhexName n)
+    pure (g, if r then "True" else "False")
+  | "rename_column" :: rest =>
+    match takeCounted rest with
+    | some (olds, r) => do pure (← g.renameColumn (olds.map unhexName) (r.map unhexName), "")
+    | none => .error .generic
+  | ["rename_layer", a, b] => do pure (← g.renameLayer [unhexName a] [unhexName b], "")
+  | "refine" :: mode :: rest =>
+    match takeCounted rest with
+    | some (cols, r) =>
+      match takeCounted r with
+      | some (edge, _) => do
+        let b : Bisect := if mode = "t" then .longest else if mode = "x" then .x else if mode = "y" then .y else .no
+        let g ← g.refine (← cols.mapM (colId g)) b (← edge.mapM (colId g))
+        pure (g, "")
+      | none => .error .generic
+    | none => .error .generic
+  | "refine_layers" :: f :: layers => do pure (← g.refineLayers (layers.map unhexName) f.toNat!, "")
+  | "decompose_columns" :: cols => do pure (← g.decomposeColumns (← cols.mapM (colId g)), "")
+  | ["triangulate_column", c] => do
+    let (g, _) ← g.triangulateColumn (unhexName c)
+    let g ← g.addMissingConnections
+    let g := g.identifyNeighbours
+    pure (← g.setupNames, "")
+  | "reduce" :: cols => do pure (← g.reduce (← cols.mapM (colId g)), "")
+  | "snap_columns_to_layers" :: t :: cols => do pure (← g.snapColumnsToLayers (ratD t) (← cols.mapM (colId g)), "")
+  | "snap_columns_to_nearest_layers" :: cols => do pure (← g.snapColumnsToNearestLayers (← cols.mapM (colId g)), "")
+  | ["translate", dx, dy, dz, w] => .ok (g.translate (ratD dx) (ratD dy) (ratD dz) (w = "1"), "")
+  | ["rotate", cs, sn, cx, cy, w] => do
+    let centre := if cx = "-" then none else some (ratD cx, ratD cy)
+    pure (← g.rotate (ratD cs) (ratD sn) centre (w = "1"), "")
+  | "copy_layers_from" :: rest =>
+    let rec lay : List String → List Layer
+      | n :: b :: c :: t :: r => { name := unhexName n, bottom := ratD b, centre := ratD c, top := ratD t } :: lay r
+      | _ => []
+    do pure (← g.copyLayersFrom (lay rest), "")
+  | ["check_fix"] => do
+    let (g, ok) ← g.check true
+    pure (g, if ok then "True" else "False")
+  | ["check"] => do
+    let (_, ok) ← g.check false
+    pure (g, if ok then "True" else "False")
+  | ["delete_orphans"] => do pure (← g.deleteOrphans, "")
+  | ["dump"] => .ok (g, dump g)
+  | _ => .error .generic
+
+partial def loop (i o : IO.FS.Stream) (g : Geo) : IO Unit := do
+  let line ← i.getLine
+  if line.isEmpty then return ()
+  let ws := (line.trimAscii.toString.splitOn " ").filter (· ≠ "")
+  match step g ws with
+  | .ok (g', out) =>
+    o.putStrLn (if out = "" then "ok" else "ok " ++ out)
+    o.flush
+    loop i o g'
+  | .error e =>
+    o.putStrLn ("exc " ++ e.toString)
+    o.flush
+    loop i o g
+
+def main : IO Unit := do
+  let i ← IO.getStdin
+  let o ← IO.getStdout
+  loop i o {}
+  o.flush
